@@ -226,7 +226,26 @@ def shapes_for(rng, ins, outs, lo=1, hi=4):
     return ish, internal, ext
 
 
+def _dedupe(kvs):
+    """Python dict semantics for a list of [key, value] pairs: the last binding of a key wins."""
+    d = {}
+    for k, v in kvs:
+        d[k] = v
+    return [[k, v] for k, v in d.items()]
+
+
 def generate(rng, tier, mult):
+    return [_clean(c) for c in _generate(rng, tier, mult)]
+
+
+def _clean(c):
+    for key in ("ishapes", "internal"):
+        if key in c:
+            c[key] = _dedupe(c[key])
+    return c
+
+
+def _generate(rng, tier, mult):
     n = (250 if tier == "quick" else 1500) * mult
     cases = []
     for _ in range(n):
